@@ -55,10 +55,11 @@ def gen_program(rng, ntasks=None, exact=False, allow_wrote=True, writes=True):
     p = Prog()
     n = ntasks or rng.randint(3, 8)
     ns = rng.randint(1, 4)
-    p.sources = list(range(1, ns + 1))
+    # resource ids < 100: the in-memory map resource (MapKey); ids >= 100: a resource whose writer truncates when opened
+    p.sources = [s if rng.random() < 0.6 else 100 + s for s in range(1, ns + 1)]
     ng = rng.randint(0, 3) if writes else 0
     for g in range(ng):
-        p.generated[10 + g] = rng.randint(2, n)   # writer: not task 1, so somebody lower can read it
+        p.generated[(10 if rng.random() < 0.5 else 110) + g] = rng.randint(2, n)   # writer: not task 1, so somebody lower can read it
     ochoices = [0] if exact else OCHK
     rchoices = [0] if exact else RCHK_SRC
 
